@@ -219,7 +219,8 @@ LOGGING_MODULES = {'rsocket.frame_logger', 'rsocket.logger'}
 
 class Options:
     def __init__(self, exc=(), inline_depth=MAX_DEPTH, no_inline=(), loop_bind=None, attr_types=None,
-                 inline_filter=None, app_types=None, max_paths=MAX_PATHS, follow_multi=4, initial_heap=None):
+                 inline_filter=None, app_types=None, max_paths=MAX_PATHS, follow_multi=4, initial_heap=None,
+                 arm=None, symbolic_compare=False, stable_attrs=False):
         self.exc = set(exc)  # subset of {'app', 'cancel'}; explicit raises are always followed
         self.inline_depth = inline_depth
         self.no_inline = set(no_inline)  # function short names / qualnames never inlined
@@ -230,6 +231,9 @@ class Options:
         self.max_paths = max_paths
         self.follow_multi = follow_multi
         self.initial_heap = initial_heap or {}
+        self.arm = arm  # 'try' | 'except': which of two alternative definitions (try: import x / except ImportError)
+        self.symbolic_compare = symbolic_compare  # comparisons in value context stay terms instead of forking
+        self.stable_attrs = stable_attrs  # attribute reads carry no epoch (synchronous code without call-outs)
 
 
 # interfaces whose implementations are supplied by the application: calls on them are APP call-outs
@@ -1080,7 +1084,7 @@ class Interp:
                     f = c.lookup(attr)
                     if f is not None and not f.is_property():
                         return AVal(('boundmethod', bt, attr), None)
-        if mutable:
+        if mutable and not self.opt.stable_attrs:
             return AVal(('attr', bt, attr, st.epoch), types)
         return AVal(('attr', bt, attr), types)
 
@@ -1334,6 +1338,19 @@ class Interp:
         return AVal(('op', opn, a.term, b.term))
 
     def _ex_Compare(self, e, st):
+        if len(e.ops) == 1 and self.opt.symbolic_compare:
+            for s, a, out in self._eval(e.left, st):
+                if out is not None:
+                    yield s, None, out
+                    continue
+                for s2, b, out2 in self._eval(e.comparators[0], s):
+                    if out2 is not None:
+                        yield s2, None, out2
+                    elif a.is_const() and b.is_const():
+                        yield from ((s3, const(t), o3) for s3, t, o3 in self._decide_compare(e, e.ops[0], a, b, s2))
+                    else:
+                        yield s2, AVal(('cmp', type(e.ops[0]).__name__, a.term, b.term)), None
+            return
         if len(e.ops) == 1:
             for s, t, out in self._cond(e, st):
                 yield s, (const(t) if out is None else None), out
@@ -1497,7 +1514,14 @@ class Interp:
         if t[0] == 'class':
             return {'kind': 'ctor', 'cls': next(iter(v.types)), 'name': label}
         if t[0] == 'func':
-            funcs = [self.repo.func(q) if False else self._func_by_qual(q) for q in t[1]]
+            funcs = []
+            for q in t[1]:
+                funcs.extend(self._funcs_by_qual(q))
+            funcs = list(dict.fromkeys(funcs))
+            if len(funcs) > 1 and len({f.qualname for f in funcs}) == 1:
+                # alternative definitions of one name: take the selected arm, default the last one defined
+                sel = [f for f in funcs if self.opt.arm and f.arm == self.opt.arm]
+                funcs = sel or funcs[-1:]
             return {'kind': 'funcs', 'funcs': funcs, 'recv': None, 'name': label}
         if t[0] == 'closure':
             return {'kind': 'funcs', 'funcs': [self._func_by_qual(t[1])], 'recv': None, 'name': label,
@@ -1514,6 +1538,10 @@ class Interp:
             return {'kind': 'lambda', 'name': '<lambda>', 'term': t}
         return {'kind': 'unknown', 'name': label, 'value': v}
 
+    def _funcs_by_qual(self, q: str) -> List[FuncInfo]:
+        self._func_by_qual(q)
+        return list(self.repo._fq[q])
+
     def _func_by_qual(self, q: str) -> FuncInfo:
         cache = getattr(self.repo, '_fq', None)
         if cache is None:
@@ -1526,6 +1554,10 @@ class Interp:
 
     def _callee_from_method(self, base: AVal, name: str, st: State, call) -> dict:
         bt = base.term
+        if (bt, name) in st.heap:
+            hv = st.heap[(bt, name)]
+            if hv.term[0] in ('func', 'closure', 'lambda', 'class'):
+                return self._callee_from_value(hv, None, name, st)
         if bt[0] == 'module':
             m = self.repo.modules[bt[1]]
             r = self.repo.resolve_name(m, name)
@@ -1668,6 +1700,14 @@ class Interp:
 
         if kind == 'ctor':
             cls: ClassInfo = callee['cls']
+            if len(pos) == 1 and not kw and any(b.split('.')[-1] in ('Enum', 'IntEnum', 'IntFlag', 'Flag')
+                                                 for b in cls.external_bases()):
+                # Enum lookup by value: the member carries the value it was looked up with
+                val = AVal(('enumof', cls.qualname, pos[0].term), [cls], exact=True)
+                st.emit('call', e, name=cls.name, how='external', recv=None, args=pos, kwargs=kw, targets=None,
+                        value=val, callee=callee, awaited=False)
+                yield st, val, None
+                return
             obj = AVal(('new', next(self._site), cls.name), [cls], exact=True)
             st.emit('new', e, cls=cls, value=obj, args=pos, kwargs=kw)
             init = cls.lookup('__init__')
